@@ -149,6 +149,7 @@ theorem step_client (s : Sys F) (ev : Ev) :
   | crit d => exact ⟨rfl, rfl⟩
   | failNext c => exact ⟨rfl, rfl⟩
   | failBind c => exact ⟨rfl, rfl⟩
+  | syncTimeout => exact ⟨rfl, rfl⟩
   | stamp idx weak ld ccb cct => exact ⟨rfl, rfl⟩
 
 /-- **The relay log of a run.**  With distinct conn ids, the concatenation of `Out.client` over any run
@@ -217,6 +218,7 @@ theorem relayLog_true (known : List Nat) (evs : List Ev) :
     | crit d => simpa [relayLog, relayables, ckAfter] using ih
     | failNext c => simpa [relayLog, relayables, ckAfter] using ih
     | failBind c => simpa [relayLog, relayables, ckAfter] using ih
+    | syncTimeout => simpa [relayLog, relayables, ckAfter] using ih
     | stamp idx weak ld ccb cct => simpa [relayLog, relayables, ckAfter] using ih
 
 /-- No non-empty client datagram among the events. -/
@@ -241,6 +243,7 @@ theorem relayLog_false_noClient (known : List Nat) (evs : List Ev) (h : noClient
     | crit d => exact ih h
     | failNext c => exact ih h
     | failBind c => exact ih h
+    | syncTimeout => exact ih h
     | stamp idx weak ld ccb cct => exact ih h
 
 theorem relayLog_false_split (known : List Nat) (pre : List Ev) (now : Nat) (pkt : Bytes) (post : List Ev)
@@ -260,6 +263,7 @@ theorem relayLog_false_split (known : List Nat) (pre : List Ev) (now : Nat) (pkt
     | crit d => exact ih h
     | failNext c => exact ih h
     | failBind c => exact ih h
+    | syncTimeout => exact ih h
     | stamp idx weak ld ccb cct => exact ih h
 
 theorem sublist_flatMap_relayCopies (l : List Bytes) : l.Sublist (l.flatMap relayCopies) := by
